@@ -5,14 +5,18 @@
 //     -DC17_POOL     max_pool2d, avg_pool2d       -DC17_SOFTMAX  softmax, softmin
 //     -DC17_NORM     batch/layer/instance norm    -DC17_GNORM    group_norm
 //     -DC17_MISC     linear, bilinear, pairwise_distance, cosine_similarity
-// Oracle: engine/nmc_ref_c17.hpp (nested loops from the PyTorch documentation; validated against all 111 upstream
-// expectation literals of include/nmtools/testing/data/array/*.hpp and against NumPy formulas, see the selftest).
+// Oracle: engine/nmc_ref_c17.hpp (nested loops from the PyTorch documentation).  The model was validated independently of
+// nmtools: c17_upstream_literals.cpp (all 111 PyTorch expectation literals of include/nmtools/testing/data/array/*.hpp) and
+// c17_refdump.cpp + c17_audit.py (6493 model results recomputed with NumPy formulas, 0 mismatches); each unit's selftest
+// re-checks a few hand-ported upstream literals and feeds canned wrong results through the comparison.
 //
-// Operands: all-dynamic ndarrays, all-distinct integer element values (input 1,2,3,.., weight 2,3,4,.., bias 101,108,..)
-// so that an element taken from the wrong place, a wrong group or a dropped/duplicated tap changes the result.
-// Integer element type (long) and exact comparison for conv / max_pool / linear / bilinear; double operands and
-// rtol 1e-9 where division / sqrt / exp occur (avg_pool, softmax/softmin, the norms, the distances).
-// Every case calls the lazy view AND the eager array:: function; both are compared with the model and with each other.
+// Operands: all-dynamic ndarrays, all-distinct element values (conv/linear/bilinear: input 1,2,3,.., weight 2,3,4,.., bias 101,108,..;
+// pooling/softmax/norms/distances: a scrambled distinct sequence) so that an element taken from the wrong place, a wrong group or a
+// dropped/duplicated tap changes the result.  Integer element type (long) and exact comparison for conv / max_pool / linear /
+// bilinear; double operands and rtol 1e-9 where division / sqrt / exp occur (softmax/softmin, the norms, the distances); rtol 1e-5
+// for avg_pool2d (its element type is float by construction) and for the float / integer-input variants of softmax.
+// Every case calls the lazy view AND the eager array:: function; both are compared with the model, and - for the exact families -
+// with each other.
 //
 // NON-TRIVIALITY RULE (stated per family):
 //   conv      : the result has >= 2 elements, or every result element is a sum of >= 2 products (C/groups * prod(kernel) >= 2)
